@@ -157,9 +157,9 @@ func VC06_Insert() {
 	} else {
 		rt.Assert(len(gotR) == 0, "no Record-Route entry is added")
 	}
-	if rt.Symbolic() {
-		rt.Assert(rt.UUIDCalls()-before == 1, "the random source is consulted exactly once per relayed request")
-	}
+	// "freshly generated": the branch comes from a draw of the random source made for this request (the native twin counts
+	// reads of the uuid package's source, the executor calls of its model)
+	rt.Assert(rt.UUIDCalls()-before == 1, "the random source is consulted exactly once per relayed request")
 	rt.Reach("end")
 }
 
